@@ -67,7 +67,7 @@ def standins(tier, seed):
     # nested inverses / divisions inside symbolically optimised registered functions: the inner quotient has rational-function
     # coefficients with denominators of their own, and the generated code of the outer one takes their reciprocal (seeded change C07n)
     nested = ['(a.inv()).inv()', '(a / (b / a))', '(2 / (a.inv() * b))', '(a / b)', '(3 / a)', '((a / b).inv())']
-    for i, c in enumerate([dict(p=2), dict(p=1, q=1)] + ([dict(p=2, q=0, r=1), dict(p=3)] if tier != 'quick' else [])):
+    for i, c in enumerate([dict(p=2), dict(p=1, q=1)] + ([dict(q=2), dict(p=1, q=0, r=1), dict(p=1)] if tier != 'quick' else [])):       # 2-D at most: symbolic optimisation of nested quotients takes tens of minutes in 3-D
         jobs.append({'name': f'nested-division#{i}', 'bound': f'{len(nested)} nested inverse / division forms inside alg.register(f, symbolic=True), seeded Fraction operands, compared with direct evaluation',
                      'job': {'kind': 'register', 'module': 'standins.jobs3', 'configs': [dict(c, always=nested * 2, random=0, modes=['symbolic'])], 'seed': seed * 10 + i}})
     jobs.append({'name': 'powers', 'bound': 'exponents 1..40 and ranges (1..n), n<=16, polynomial operand', 'job': {'kind': 'powers', 'module': 'standins.jobs5', 'limit': 40}})
